@@ -28,8 +28,12 @@ def b64(obj):
 
 def gen_request(rng, k):
     """-> (line bytes, kind, marker).  marker identifies the expected answer."""
-    c = rng.randint(1, 23)
+    c = rng.randint(1, 24)
     src = f"db.Setting = {1000 + k}\n"
+    if c == 24:
+        # a program whose result exceeds what the chip holds (more than 128 lines and 4096 bytes)
+        big = "".join(f"d{i % 6}.Setting = d{(i + 1) % 6}.Setting + {1000 + k}\n" for i in range(150))
+        return b64({"action": "compile", "code": {"": big}}).encode(), "ok", str(1000 + k)
     if c == 23:
         # a constexpr function that reads standard input: the requests still waiting there are not its to take
         s3 = "@constexpr\ndef g():\n    import sys\n    sys.stdin.buffer.read()\n    return 3\n" + f"db.Setting = g() + {1000 + k}\n"
@@ -137,6 +141,8 @@ def main(tier, seed):
         # request running a constexpr function that reads standard input to its end
         s3 = "@constexpr\ndef g():\n    import sys\n    sys.stdin.buffer.read()\n    return 3\ndb.Setting = g() + 1\n"
         reqs = [("any", None, b64({"action": "compile", "code": {"": s3}}).encode())]
+        big = "".join(f"d{i % 6}.Setting = d{(i + 1) % 6}.Setting + 4999\n" for i in range(150))
+        reqs.append(("ok", "4999", b64({"action": "compile", "code": {"": big}}).encode()))
         for k in range(300):
             reqs.append(("ok", str(5000 + k), b64({"action": "compile", "code": {"": f"db.Setting = {5000 + k}\n" + "# padding padding padding\n" * 6}}).encode()))
         return b"\n".join(l for _, _, l in reqs) + b"\nEXIT\n", reqs, "EXIT"
@@ -182,7 +188,7 @@ def main(tier, seed):
             run.violation(f"daemon exit status {rc}", dict(rec_base, kind="exit"))
     run.cov["distinct_nontrivial"] = total_reqs
     run.cov["traces_validated_against_impl"] = nscripts
-    run.cov["rule"] = "scripted standard input for a fresh daemon process: 5-25 (thorough: up to 60) lines drawn from 23 request kinds (valid compiles with markers, invalid base64 / JSON / shapes / actions / options, failing and printing sources, printing constexpr, a constexpr function that reads standard input, raw undecodable bytes, blank lines), ended by EXIT, EOF or EXIT followed by more input; one script of 301 requests written at once whose first request runs a constexpr function that reads standard input; five interpreter environments; non-trivial = one request line"
+    run.cov["rule"] = "scripted standard input for a fresh daemon process: 5-25 (thorough: up to 60) lines drawn from 24 request kinds (valid compiles with markers, invalid base64 / JSON / shapes / actions / options, failing and printing sources, printing constexpr, a constexpr function that reads standard input, a program larger than the chip, raw undecodable bytes, blank lines), ended by EXIT, EOF or EXIT followed by more input; one script of 301 requests written at once whose first request runs a constexpr function that reads standard input; five interpreter environments; non-trivial = one request line"
     run.cov["input_distribution"] = kinds
     run.sample({"requests": 12, "kinds": list(kinds)[:8]})
     return run.finish(assumptions_text=ass, trusted_extra=TRUST)
